@@ -149,13 +149,13 @@ Proof.
   destruct (fold_zmax_spec ns) as (Hm0 & Hmall & Hmin). set (nfr := fold_right Z.max 0 ns) in *.
   replace (nfr <? 0) with false in H by lia.
   set (vmax := scaled_trunc (dy_max vals) nfr) in *. set (vmin := scaled_trunc (dy_min vals) nfr) in *.
-  destruct (int_loop 200 (wmax - sign) vmax vmin 0) as [ni0|] eqn:Eloop; [|discriminate].
+  destruct (int_loop 400 (wmax - sign + nfr) vmax vmin 0) as [ni0|] eqn:Eloop; [|discriminate].
   injection H as Hw Hf.
-  destruct (int_loop_spec 200 (wmax - sign) vmax vmin 0 ni0 ltac:(lia) Eloop) as (Hni0 & Hfail & Hfit & _).
+  destruct (int_loop_spec 400 (wmax - sign + nfr) vmax vmin 0 ni0 ltac:(lia) Eloop) as (Hni0 & Hfail & Hfit & _).
   set (ni := Z.max (ni0 - nfr) 0) in *.
   (* below the cap: the fraction length is not shortened *)
   assert (Hnf: f = nfr) by lia. assert (Hww: w = nfr + ni + sign) by lia. clear Hw Hf. subst f.
-  assert (Hlt: ni0 < wmax - sign) by lia. specialize (Hfit Hlt).
+  assert (Hlt: ni0 < wmax - sign + nfr) by lia. specialize (Hfit Hlt).
   (* every element is a multiple of 2^-nfr *)
   assert (Hmul: Forall (fun v => is_mult v nfr) vals).
   { clear - HF2 Hmall Hdom. clearbody nfr. induction HF2 as [|v n vals ns Hv _ IH]; [constructor|].
@@ -212,12 +212,12 @@ Proof.
   intros sign Hne Hdom Hm0 Hmul H Hcap. unfold best_sizes in H. fold sign in H. cbn [bind] in H.
   replace (nfr <? 0) with false in H by lia.
   set (vmax := scaled_trunc (dy_max vals) nfr) in *. set (vmin := scaled_trunc (dy_min vals) nfr) in *.
-  destruct (int_loop 200 (wmax - sign) vmax vmin 0) as [ni0|] eqn:Eloop; [|discriminate].
+  destruct (int_loop 400 (wmax - sign + nfr) vmax vmin 0) as [ni0|] eqn:Eloop; [|discriminate].
   injection H as Hw Hf.
-  destruct (int_loop_spec 200 (wmax - sign) vmax vmin 0 ni0 ltac:(lia) Eloop) as (Hni0 & Hfail & Hfit & _).
+  destruct (int_loop_spec 400 (wmax - sign + nfr) vmax vmin 0 ni0 ltac:(lia) Eloop) as (Hni0 & Hfail & Hfit & _).
   set (ni := Z.max (ni0 - nfr) 0) in *.
   assert (Hnf: f = nfr) by lia. assert (Hww: w = nfr + ni + sign) by lia. clear Hw Hf. subst f.
-  assert (Hlt: ni0 < wmax - sign) by lia. specialize (Hfit Hlt).
+  assert (Hlt: ni0 < wmax - sign + nfr) by lia. specialize (Hfit Hlt).
   split; [reflexivity|].
   assert (HE: exists E, E <= - nfr /\ Forall (fun v => E <= de v) vals).
   { exists (- nfr - 198). split; [lia|]. eapply Forall_impl; [|exact Hdom]. cbv beta. intros v H1. lia. }
@@ -262,9 +262,9 @@ Proof.
   destruct (fold_zmax_spec ns) as (Hm0 & Hmall & Hmin). set (nfr := fold_right Z.max 0 ns) in *.
   replace (nfr <? 0) with false in H by lia.
   set (vmax := scaled_trunc (dy_max vals) nfr) in *. set (vmin := scaled_trunc (dy_min vals) nfr) in *.
-  destruct (int_loop 200 (wmax - sign) vmax vmin 0) as [ni0|] eqn:Eloop; [|discriminate].
+  destruct (int_loop 400 (wmax - sign + nfr) vmax vmin 0) as [ni0|] eqn:Eloop; [|discriminate].
   injection H as Hw Hf.
-  destruct (int_loop_spec 200 (wmax - sign) vmax vmin 0 ni0 ltac:(lia) Eloop) as (Hni0 & Hfail & Hfit & _).
+  destruct (int_loop_spec 400 (wmax - sign + nfr) vmax vmin 0 ni0 ltac:(lia) Eloop) as (Hni0 & Hfail & Hfit & _).
   set (ni := Z.max (ni0 - nfr) 0) in *.
   assert (Hmul: Forall (fun v => is_mult v nfr) vals).
   { clear - HF2 Hmall Hdom. clearbody nfr. induction HF2 as [|v n vals ns Hv _ IH]; [constructor|].
@@ -294,7 +294,7 @@ Proof.
   { intros v Hv. rewrite Forall_forall in HallM, Hallm. specialize (HallM v Hv). specialize (Hallm v Hv).
     rewrite (Hcode v Hv), (Hcode _ HinM) in HallM. rewrite (Hcode v Hv), (Hcode _ Hinm) in Hallm. fold vmax in HallM. fold vmin in Hallm. nia. }
   assert (Hww: w = w0) by lia. split; [exact Hww|]. split; [lia|]. split; [lia|]. split.
-  - intros Hfe. assert (Hlt: ni0 < wmax - sign) by lia. specialize (Hfit Hlt).
+  - intros Hfe. assert (Hlt: ni0 < wmax - sign + nfr) by lia. specialize (Hfit Hlt).
     unfold fits_int in Hfit. apply andb_true_iff in Hfit. destruct Hfit as (Hfit & F4). apply andb_true_iff in Hfit. destruct Hfit as (Hfit & F3).
     apply andb_true_iff in Hfit. destruct Hfit as (F1 & F2).
     assert (Hpow: 2^ni0 <= 2^(w - sign)) by (apply pow2_le; lia).
@@ -314,6 +314,6 @@ Proof.
   unfold best_sizes. intros H.
   destruct (match nfo with Some f0 => Ok f0 | None => match omapM (frac_bits (wmax - (if signed then 1 else 0))) vals with Some ns => Ok (fold_right Z.max 0 ns) | None => Unmodelled end end) as [nfr| |] eqn:E; cbn [bind] in H; try discriminate.
   destruct (nfr <? 0); [discriminate|].
-  destruct (int_loop 200 (wmax - (if signed then 1 else 0)) (scaled_trunc (dy_max vals) nfr) (scaled_trunc (dy_min vals) nfr) 0) as [ni0|]; [|discriminate].
+  destruct (int_loop 400 (wmax - (if signed then 1 else 0) + nfr) (scaled_trunc (dy_max vals) nfr) (scaled_trunc (dy_min vals) nfr) 0) as [ni0|]; [|discriminate].
   destruct nwo as [w0|]; injection H as Hw Hf; lia.
 Qed.
